@@ -2,10 +2,12 @@ module github.com/cloudwego/hertz/verifharness
 
 go 1.19
 
-require github.com/cloudwego/hertz v0.0.0
+require (
+	github.com/bytedance/gopkg v0.1.0
+	github.com/cloudwego/hertz v0.0.0
+)
 
 require (
-	github.com/bytedance/gopkg v0.1.0 // indirect
 	github.com/bytedance/sonic v1.13.2 // indirect
 	github.com/bytedance/sonic/loader v0.2.4 // indirect
 	github.com/cloudwego/base64x v0.1.5 // indirect
